@@ -15,6 +15,7 @@ Payload == {}
 MaxMsgs == 0
 MaxLen == 0
 EofRaises == TRUE
+ReadImpl == "byte"
 VARIABLES msgs, scenario, closed, chunks, buf, afterCR, got, status, spin
 F == INSTANCE Framing
 
